@@ -325,7 +325,13 @@ impl Prop for C16 {
 			last.push('b');
 			let mut enc_last = format!("%41{}", "a".repeat(len - 1));
 			enc_last.push_str("%62");
-			for (v, p) in [(enc.clone(), plain.clone()), (plain.clone(), enc.clone()), (enc.clone(), last.clone()), (last.clone(), enc.clone()), (plain.clone(), enc_last.clone()), (enc_last, last.clone())] {
+			// one side is the other plus ONE more (encoded / literal / NUL) character: a decoder that stops at the
+			// shorter side, or at a full buffer, or that does not record the length, calls them equal
+			let more_enc = format!("{plain}%62");
+			let more_lit = format!("{plain}b");
+			let more_nul = format!("{plain}%00");
+			for (v, p) in [(enc.clone(), plain.clone()), (plain.clone(), enc.clone()), (enc.clone(), last.clone()), (last.clone(), enc.clone()), (plain.clone(), enc_last.clone()), (enc_last, last.clone()),
+				(plain.clone(), more_enc.clone()), (more_enc.clone(), plain.clone()), (more_lit.clone(), more_enc.clone()), (more_enc.clone(), more_lit.clone()), (plain.clone(), more_nul.clone()), (more_nul.clone(), plain.clone()), (enc.clone(), more_nul.clone()), (more_nul, more_lit)] {
 				if !emit(v, p, f) {
 					return vec![];
 				}
